@@ -73,6 +73,35 @@ def _group(job):
     return {"job": [cm, c8], "m": m, "runs": [_one(cm, c8, n, m) for n in ns]}
 
 
+def seq_ones(payload):
+    """(in a pristine child) several PeriodicDiskRevolve schedules in order in ONE process."""
+    out = []
+    for cm, c8, n in payload["items"]:
+        m = O.period_closed_form(cm, c8[0], c8[2], c8[3])
+        out.append(_one(cm, c8, n, m))
+    return out
+
+
+def _seq_chunk(seqs):
+    from .. import forkserver
+    cl = forkserver.client()
+    return [(seq, cl.call("vlib.props.c19.seq_ones", {"items": seq})) for seq in seqs]
+
+
+def rescale_sequences(tier):
+    """The same problem in other cost units: (cm, c, n) followed by (cm, k*c, n), k in {4, 1/4 via order},
+    in one pristine process (tables cached per relative costs would leak the scale)."""
+    for cm in (2, 3, 4):
+        for base in ([8, 8, 40, 40], [8, 16, 80, 16], [4, 4, 48, 0]):
+            m = O.period_closed_form(cm, base[0], base[2], base[3])
+            if m > 60:
+                continue
+            big = [4 * x for x in base]
+            for n in (m + 2, 2 * m + 1, 3 * m + 3):
+                yield [[cm, base, n], [cm, big, n]]
+                yield [[cm, big, n], [cm, base, n]]
+
+
 def _gen(job):
     tier, seed, count = job
     from hypothesis import strategies as st
@@ -94,6 +123,15 @@ def _gen(job):
 
 def check_witness(data, show=False):
     w = data["witness"]
+    if isinstance(w, dict) and "items" in w:
+        outs = R.pristine_call("vlib.props.c19.seq_ones", {"items": w["items"]})
+        seen = set()
+        res = []
+        for pred, detail in outs[-1]["viol"]:
+            if pred not in seen:
+                seen.add(pred)
+                res.append((("PeriodicDiskRevolve", pred), w, detail + " [after the earlier schedules of the sequence, in one process]", "item-sequence"))
+        return res
     m = O.period_closed_form(w["s"], w["c8"][0], w["c8"][2], w["c8"][3])
     out = _one(w["s"], w["c8"], w["n"], m)
     if show:
@@ -157,6 +195,22 @@ def run(prop, args):
                 if pred not in seen:
                     seen.add(pred)
                     rep.add_violation(("PeriodicDiskRevolve", pred), cfg, detail)
+    seqs = list(rescale_sequences(tier))
+    for part in R.pmap(_seq_chunk, R.chunks(seqs, 16), chunksize=1):
+        for seq, outs in part:
+            for i, out in enumerate(outs):
+                rep.evaluations += 1
+                seen = set()
+                for pred, detail in out["viol"]:
+                    if pred in seen:
+                        continue
+                    seen.add(pred)
+                    if i == 0:
+                        rep.add_violation(("PeriodicDiskRevolve", pred), out["cfg"], detail)
+                    else:
+                        rep.add_violation(("PeriodicDiskRevolve", pred), {"items": seq[:i + 1]},
+                                          detail + " [after the same problem with costs x%s in the same process]" % ("1/4" if seq[0][1][0] > seq[1][1][0] else "4"), kind="item-sequence")
+    rep.extra["rescaled_cost_sequences"] = len(seqs)
     R.run_regress(rep, check_witness)
     rep.count("regions", "cost-vectors", len(res))
     rep.count("regions", "cost-vectors-on-closed-form-boundary", boundary)
@@ -164,11 +218,15 @@ def run(prop, args):
                        "dyadic costs: the library's float comparison beta <= (wd+rd)/uf agrees with the exact rational one"]
 
     def shrink(b, w):
+        if "items" in w:
+            return w, [d for p, d in R.pristine_call("vlib.props.c19.seq_ones", {"items": w["items"]})[-1]["viol"] if p == b[1]][0]
+
         def det(c):
             m = O.period_closed_form(c["s"], c["c8"][0], c["c8"][2], c["c8"][3])
             if m > 100:
                 return None
             return next((d for p, d in _one(c["s"], c["c8"], c["n"], m)["viol"] if p == b[1]), None)
         small = C.shrink(w, lambda c: det(c) is not None, budget=150)
-        return small, det(small) or ""
+        d_ = det(small)
+        return (small, d_) if d_ else None      # None: not reproducible in isolation
     return rep.finish(shrink_fn=shrink)
